@@ -66,3 +66,14 @@ theorem unique_ascending {eq : Nat → Nat → Option Bool} {s e : Nat} {l : Lis
     (h : unique eq s e = some l) : PatienceP.Asc l.toArray s e := PatienceP.unique_asc h
 
 end SimilarVerif.C15
+
+namespace SimilarVerif.C15
+open SimilarVerif Spec
+
+/-- Patience streams are valid scripts whenever the call returns — no hypotheses left -/
+theorem patience_valid_uncond (E : Env) (os oe ns ne : Nat) (w : World) (r' : Rec) (w' : World)
+    (ho : os ≤ oe) (hn : ns ≤ ne) (hb : InBounds E os oe ns ne)
+    (h : rawTrace .patience E os oe ns ne w = .ok (r', w')) : ValidRaw E os oe ns ne r'.trace :=
+  C01.patience_valid_if_returns E os oe ns ne w r' w' ho hn hb h
+
+end SimilarVerif.C15
